@@ -1,5 +1,6 @@
 import CotengraVerif.Driver.Util
 import CotengraVerif.Model.TreeState
+import CotengraVerif.Model.MaxCounter
 
 namespace Cotengra.Driver.C04
 open Lean Cotengra Cotengra.Driver
@@ -55,6 +56,23 @@ def scratch : Handler := fun j => do
               ("write", jInt ((s.mult : Int) * s.scratchWrite)),
               ("size", jNat (Net.listMax s.scratchSizes))])
 
-def handlers : List (String × Handler) := [("c04.run", run), ("c04.scratch", scratch)]
+/-- `c04.mc`: run a MaxCounter op sequence ([["add", x] | ["discard", x]]); after every op the cached
+    maximum (null = -inf) and the counter contents -/
+def mc : Handler := fun j => do
+  let ops ← arrOf (← field j "ops")
+  let mut m : MC := MC.empty
+  let mut outs : List Json := []
+  for o in ops do
+    match ← arrOf o with
+    | [k, x] =>
+      let k ← k.getStr?
+      let x ← natOf x
+      m := if k == "add" then m.add x else m.discard x
+      outs := outs ++ [jObj [("max", match m.max with | none => Json.null | some v => jNat v),
+                             ("items", jPairs m.c)]]
+    | _ => throw "bad op"
+  pure (jObj [("outs", jArr outs)])
+
+def handlers : List (String × Handler) := [("c04.run", run), ("c04.scratch", scratch), ("c04.mc", mc)]
 
 end Cotengra.Driver.C04
